@@ -209,8 +209,78 @@ func FactsAt(b *ssa.BasicBlock) []Fact {
 	var out []Fact
 	for _, c := range CondsAt(b) {
 		out = append(out, FactOf(c))
+		if f, ok := predicateFact(c); ok {
+			out = append(out, f)
+		}
 	}
 	return out
+}
+
+// predicateFact: the condition is a call of a boolean function of the same package whose body is a single
+// `return a <op> b` (an extracted test such as `func (x *T) hasLen(b []byte) bool { return len(b) == x.n }`).
+// The fact it establishes is that comparison with the function's parameters replaced by the arguments, in
+// the caller's vocabulary - a rule that looks for the comparison among the facts finds it either way.
+func predicateFact(c Cond) (Fact, bool) {
+	call, ok := c.V.(*ssa.Call)
+	if !ok || call.Parent() == nil {
+		return Fact{}, false
+	}
+	h := call.Call.StaticCallee()
+	if h == nil || h.Blocks == nil || h.Pkg != call.Parent().Pkg || len(h.Blocks) != 1 {
+		return Fact{}, false
+	}
+	ret, ok := h.Blocks[0].Instrs[len(h.Blocks[0].Instrs)-1].(*ssa.Return)
+	if !ok || len(ret.Results) != 1 {
+		return Fact{}, false
+	}
+	bo, ok := ret.Results[0].(*ssa.BinOp)
+	if !ok {
+		return Fact{}, false
+	}
+	switch bo.Op {
+	case token.EQL, token.NEQ, token.LSS, token.LEQ, token.GTR, token.GEQ:
+	default:
+		return Fact{}, false
+	}
+	f := FactOf(Cond{V: bo, Taken: c.Taken})
+	if f.Op == "T" {
+		return Fact{}, false
+	}
+	m := map[string]string{}
+	for i, p := range h.Params {
+		if i < len(call.Call.Args) {
+			m[ExprKey(p)] = ExprKey(call.Call.Args[i])
+		}
+	}
+	f.A, f.B = substTokens(f.A, m), substTokens(f.B, m)
+	if (f.Op == "==" || f.Op == "!=") && f.B < f.A {
+		f.A, f.B = f.B, f.A
+	}
+	return f, true
+}
+
+// substTokens replaces whole identifier tokens of s by their image under m (one pass, no re-scanning).
+func substTokens(s string, m map[string]string) string {
+	var out strings.Builder
+	for i := 0; i < len(s); {
+		if isIdentChar(s[i]) {
+			j := i
+			for j < len(s) && isIdentChar(s[j]) {
+				j++
+			}
+			tok := s[i:j]
+			if r, ok := m[tok]; ok {
+				out.WriteString(r)
+			} else {
+				out.WriteString(tok)
+			}
+			i = j
+			continue
+		}
+		out.WriteByte(s[i])
+		i++
+	}
+	return out.String()
 }
 
 // Mentions reports whether a fact's text mentions the expression key (as a whole token).
